@@ -21,7 +21,7 @@ func init() {
 			"C19.5 SetResponseCache stores the request's transaction id and the attribute slice that is sent; on the existing-allocation path success is sent only on the id==TransactionID edge — built from all the cached attributes, in order, followed by the integrity attribute, however that list is put together — otherwise 437, and no state effect lies on either path; " +
 			"C19.6 (=C04.3) the fingerprint under which the request's allocation (and its cached answer) is looked up is injective in the 5-tuple.; " +
 			"C19.7 every response sent by package server is assembled by buildMsg (transaction id first), never by hand; " +
-			"C19.8 (=C15.2/C06.5r) the teardown of an allocation stops its lifetime timer (and releases everything else) on every path, so that no expiry left over from an earlier allocation of a 5-tuple ends a later one before the LIFETIME it was told. C19.9 the QuotaHandler is consulted only after the 5-tuple lookup; C19.10 (=C20.4) SO_REUSEPORT only on the TCP paths. C19.11 (=C15.7) arm → publish → callback.",
+			"C19.8 (=C15.2/C06.5r) the teardown of an allocation stops its lifetime timer (and releases everything else) on every path, so that no expiry left over from an earlier allocation of a 5-tuple ends a later one before the LIFETIME it was told. C19.9 the QuotaHandler is consulted only after the 5-tuple lookup; C19.10 (=C20.4) SO_REUSEPORT only on the TCP paths. C19.11 (=C15.7) arm → publish → callback. C19.12 Allocation.RelayAddr depends on result #1 of the generator call and on no other address source.",
 		NotCovered: "reachability of the advertised relayed address from the network; what the relay generator returns; exactly-once delivery of a response.",
 		Run:        runC19,
 	})
@@ -306,6 +306,7 @@ func runC19(c *Ctx) {
 	ruleReleaseCoverage(c, "C19.8")
 	ruleAllocateLookupFirst(c, "C19.9")
 	ruleReusePortSites(c, "C19.10")
+	ruleRelayAddrFromGenerator(c, "C19.12")
 	ruleArmThenPublish(c, "C19.11")
 }
 
@@ -476,6 +477,24 @@ func ruleTruthfulAddresses(c *Ctx, rule string) {
 						if _, isMI := r.(*ssa.MakeInterface); isMI {
 							sent = true
 						}
+					}
+					zeroLit := true
+					for _, r := range *al.Referrers() {
+						switch x := r.(type) {
+						case *ssa.Store:
+							if x.Addr == ssa.Value(al) {
+								zeroLit = false
+							}
+						case *ssa.FieldAddr, *ssa.Call:
+							zeroLit = false
+						}
+					}
+					if sent && zeroLit && len(lit.fields) == 0 && w.guardedBy(al, w.Func("allocation", "Manager", "GetAllocation"), -1, "nil", nil) != nil {
+						// LIFETIME 0 on a path on which the 5-tuple holds no allocation: nothing is in
+						// force, and 0 says so
+						c.Anchor(rule, fname(fn)+" lifetime")
+						c.OK(rule, fname(fn), "LIFETIME", pos, "a zero LIFETIME under GetAllocation(...) == nil: the 5-tuple holds no allocation, the lifetime in force is none")
+						return
 					}
 					if sent {
 						c.Anchor(rule, fname(fn)+" lifetime")
